@@ -30,6 +30,9 @@ type ReqScript struct {
 	IllegalAfter int    `json:"illegal_after,omitempty"`
 	// ReadDelayUS slows the reader down (microseconds per packet).
 	ReadDelayUS int `json:"read_delay_us,omitempty"`
+	// Inline: a single-threaded receiver - it does not read the next packet
+	// while a request it can already issue has not been written to the stream.
+	Inline bool `json:"inline,omitempty"`
 }
 
 // RefRecvResult is what the reference receiver observed.
@@ -61,12 +64,20 @@ func RunRefReceiver(end *End, sc ReqScript) *RefRecvResult {
 	var nonfile []uint32
 	requestedSet := map[uint32]bool{}
 	readerDone := false
+	sent := 0       // requests of sc.Order issued or skipped so far (under mu)
+	inSend := false // the requester is inside SendMsg (under mu)
 	var wg sync.WaitGroup
 	wg.Add(2)
 	// requester
 	go func() {
 		defer wg.Done()
-		sent := 0
+		defer func() {
+			mu.Lock()
+			inSend = false
+			sent = len(sc.Order)
+			cond.Broadcast()
+			mu.Unlock()
+		}()
 		illegalSent := sc.Illegal == ""
 		for {
 			mu.Lock()
@@ -132,6 +143,7 @@ func RunRefReceiver(end *End, sc ReqScript) *RefRecvResult {
 			case "fin":
 				res.FinSent = true
 			}
+			inSend = true
 			mu.Unlock()
 			var err error
 			if kind == "fin" {
@@ -139,6 +151,10 @@ func RunRefReceiver(end *End, sc ReqScript) *RefRecvResult {
 			} else {
 				err = end.SendMsg(&types.Packet{Type: types.PACKET_REQ, ID: id})
 			}
+			mu.Lock()
+			inSend = false
+			cond.Broadcast()
+			mu.Unlock()
 			if err != nil || kind == "fin" {
 				return
 			}
@@ -211,6 +227,17 @@ func RunRefReceiver(end *End, sc ReqScript) *RefRecvResult {
 				res.ProtoErr = fmt.Sprintf("unexpected packet type %v from sender", p.Type)
 			}
 			cond.Broadcast()
+			for sc.Inline && !readerDone {
+				pending := inSend
+				if !pending && sent < len(sc.Order) {
+					idx := sc.Order[sent]
+					pending = idx < len(requestable) && (sc.Eager || res.StatsDone)
+				}
+				if !pending {
+					break
+				}
+				cond.Wait()
+			}
 			mu.Unlock()
 		}
 	}()
